@@ -154,6 +154,8 @@ def obligations(tier):
         "T5": ["mix_dict_first"],
         "T6": ["file_array", "dict"],
         "T7": ["file_array", "dict"],
+        "T7p": ["file_array", "dict"],
+        "TN": ["file_array", "dict"],
         "T8": ["file_array", "dict", "mix_file_first", "mix_dict_first"],
         "T10": ["file_array"],
         "T12": ["mix_file_first"],
